@@ -67,7 +67,7 @@ func buildSpecs() {
 		"cost.update-settings": {"cost+", true}, "cost.pour": {"cost+", true}, "cost.refill": {"cost+", true},
 	}
 	specs[kVesting] = map[string]sspec{
-		"min_lock": {"coinMult", true}, "min_duration": {"duration", true}, "max_duration": {"duration", true},
+		"min_lock": {"coin", true}, "min_duration": {"duration", true}, "max_duration": {"duration", true},
 		"max_destinations": {"int", true}, "max_description_length": {"int", true}, "owner_id": {"key", true},
 		"cost.add": {"cost+", true}, "cost.delete": {"cost+", true}, "cost.stop": {"cost+", true},
 		"cost.trigger": {"cost+", true}, "cost.unlock": {"cost+", true}, "cost.vestingsc-update-settings": {"cost+", true},
